@@ -100,7 +100,7 @@ namespace occa {
 
     setupArrayScopeOverrides(scope);
     scope.props["defines/OCCA_ARRAY_FUNCTION_CALL(ACC, INDEX)"] = (
-      "OCCA_ARRAY_FUNCTION(ACC, occa_range_start + (occa_range_step * INDEX), _, _)"
+      "OCCA_ARRAY_FUNCTION(ACC, occa_range_start + (occa_range_step * INDEX), INDEX, _)"
     );
 
     return scope;
